@@ -1,3 +1,9 @@
 import os, sys
 sys.path.insert(0, os.path.dirname(os.path.abspath(__file__)))
 sys.path.insert(0, os.path.dirname(os.path.dirname(os.path.abspath(__file__))))
+
+def listed_keys():
+    """oracle keys of every finding listed in known_findings.txt (any property): a search for a NEW
+    failing input skips these — each is reported by its own property's check."""
+    import checklib
+    return {k['key'] for k in checklib.known_findings()}
